@@ -1768,6 +1768,23 @@ class BDD(dd._abc.BDD[_Ref]):
         if abs(x - y) != 1:
             raise ValueError(
                 (x, y))
+        # a swap that runs out of node numbers midway
+        # would leave the tables half-rewritten,
+        # so ensure beforehand that the new nodes fit
+        # (each node at level `x` that depends on `y`
+        # is rebuilt from at most two new nodes)
+        def depends_on_y(u):
+            _, v, w = self._succ[abs(u)]
+            return (
+                self._succ[abs(v)][0] == y or
+                self._succ[abs(w)][0] == y)
+        n_new = 2 * sum(map(
+            depends_on_y, all_levels[x]))
+        if len(self._succ) + n_new >= self.max_nodes - 1:
+            raise RuntimeError(
+                'full: swapping these levels could reach '
+                '`self.max_nodes` nodes '
+                f'({self.max_nodes = }).')
         # count nodes
         oldsize = len(self._succ)
         # collect levels x and y
